@@ -80,6 +80,19 @@ def build(repo):
                   T.fpF(O1, S1) != T.fpF(O2, S2), {"law": "fingerprint", "cls": "Cacheable"}))
     vcs.append(VC("Cacheable:fingerprint:identical-when-agreeing", hyp2 + [T.KSok(E, O1), T.KSok(E, O2), S1 == S2, T.agreeP(O1, O2, S1)],
                   T.fpF(O1, S1) == T.fpF(O2, S2), {"law": "fingerprint", "cls": "Cacheable"}))
-    sanity = [VC("Cacheable:sanity:unequal-keysets-may-differ", hyp2 + [T.KSok(E, O1), T.KSok(E, O2)], T.fpF(O1, S1) == T.fpF(O2, S2),
+    # ---- C02, upward direction: two dictionaries that hold the same values under every key reported for EITHER of them (i.e. they differ only by
+    # adding / changing / removing keys nothing refers to) report the same keys, have the same outcome and the same fingerprint.  From L1 + L2 via the
+    # common restriction (no code involved).
+    U = z3.SetUnion(S1, S2)
+    Rc, Rc2 = T.restrict(O1, U), T.restrict(O2, U)
+    pre_up = [T.KSok(E, O1), T.KSok(E, O2), T.agreeP(O1, O2, U)]
+    lem_up = [Rc == Rc2, T.sub(Rc, O1), T.sub(Rc, O2), T.agreeP(O1, Rc, S1), T.agreeP(O2, Rc, S2)]
+    mm = {"law": "irrelevance", "cls": "Cacheable"}
+    vcs.append(VC("Cacheable:irrelevance:subset-facts", hyp2 + [T.KSok(E, O1), T.KSok(E, O2)], z3.And(z3.IsSubset(S1, U), z3.IsSubset(S2, U)), mm))
+    vcs.append(VC("Cacheable:irrelevance:common-restriction", hyp2 + pre_up, z3.And(*lem_up), mm))
+    vcs.append(VC("Cacheable:irrelevance:same-keys-same-outcome", hyp2 + pre_up + lem_up, z3.And(S1 == S2, T.ev_equiv(E, O1, O2)), mm))
+    vcs.append(VC("Cacheable:irrelevance:same-fingerprint", hyp2 + pre_up + lem_up + [S1 == S2], T.fpF(O1, S1) == T.fpF(O2, S2), mm))
+    sanity_up = VC("Cacheable:sanity:irrelevance-hypotheses-consistent", hyp2 + pre_up + lem_up, z3.BoolVal(False), {"law": "sanity", "cls": "Cacheable"}, expect="not-unsat")
+    sanity = [sanity_up, VC("Cacheable:sanity:unequal-keysets-may-differ", hyp2 + [T.KSok(E, O1), T.KSok(E, O2)], T.fpF(O1, S1) == T.fpF(O2, S2),
                  {"law": "sanity", "cls": "Cacheable"}, expect="not-unsat")]
     return vcs, undecided, sanity
